@@ -86,7 +86,10 @@ class SymEval:
             if nm in ("int", "float", "numpy.int64", "numpy.float64") and e.args:
                 return self.ev(e.args[0])
             if nm == "len" and e.args:
-                return P.s(f"len({astq.src(e.args[0], 40)})")
+                # the length of an array is its first extent: one symbol for both spellings, where the other spelling evaluates
+                alt = self.ev(ast.Subscript(value=ast.Attribute(value=e.args[0], attr="shape", ctx=ast.Load()), slice=ast.Constant(value=0), ctx=ast.Load())) \
+                    if not isinstance(e.args[0], (ast.List, ast.Tuple, ast.ListComp, ast.Dict)) else None
+                return alt if alt is not None else P.s(f"len({astq.src(e.args[0], 40)})")
             if nm in ("numpy.sqrt", "math.sqrt") and e.args:
                 v = self.ev(e.args[0])
                 return P_pow(v, 0.5) if v is not None else None
